@@ -389,6 +389,9 @@ const W_BUDGET_YIELD: u64 = 256;
 /// inside a tokio runtime WITHOUT `unconstrained`, with one runtime yield per step, so every poll of the
 /// subject gets tokio's real per-poll cooperative budget (128 channel operations) -- a task that has
 /// more than that to receive yields in the middle of its teardown, as it does in production.
+/// host tag of the stream that waits in the accept queue when the connection ends (late operations)
+const QUEUED_TAG: u8 = 251;
+
 async fn late_ops_async(n: usize, how: u8, render: bool) -> RunOutput {
     use crate::raw::{RMsg, Raw};
     let cfg = SideCfg { opts: opts(2, 1).bind_buffer_size(1).stream_buffer_size(4), rng: vec![] };
@@ -412,8 +415,19 @@ async fn late_ops_async(n: usize, how: u8, render: bool) -> RunOutput {
         let en = w.sim.enabled();
         if en.is_empty() {
             if phase == 0 {
+                // all streams are established and parked. The peer opens one more stream and writes to it; the
+                // application has not called accept_stream_channel for it when the connection ends: it waits in the
+                // accept queue and must still be handed out afterwards, with its data, before accept reports Closed
                 phase = 1;
-                // all streams are established and parked; now the connection ends ...
+                raw.send(&RFrame::Connect { id: 0x7777, rwnd: 2, port: 5, host: vec![QUEUED_TAG] });
+                let d = crate::apps::payload(QUEUED_TAG, 0, 0, 3);
+                raw.send(&RFrame::Push { id: 0x7777, data: d.clone() });
+                w.obs.borrow_mut().dir(QUEUED_TAG, 0).written.extend(d);
+                continue;
+            }
+            if phase == 1 {
+                phase = 2;
+                // now the connection ends ...
                 match how {
                     0 => w.sim.link.cut(1),
                     1 => raw.send_msg(Message::Close),
@@ -439,26 +453,28 @@ async fn late_ops_async(n: usize, how: u8, render: bool) -> RunOutput {
                 w.spawn_bind_requester(0, 7, 1, b"late".to_vec(), 1);
                 w.spawn_dgram_receiver(0, "dgrecv.late", 1, false);
                 w.spawn_dgram_sender(0, "dgsend.late", vec![dgram(1, b"x", 1, b"y")], 0, false);
-                w.spawn_acceptor(0, 1, BTreeMap::new());
+                let mut plans = BTreeMap::new();
+                plans.insert(QUEUED_TAG, EndPlan::Seq(vec![Op::ReadToEof(8)]));
+                w.spawn_acceptor(0, 2, plans);
                 wit |= W_LATE_OPS;
                 continue;
             }
             break;
         }
         // establishing the streams is deterministic set-up; the explorer owns everything from the end of the connection on
-        let c = if phase == 0 { 0 } else { crate::explore::choose_n(en.len(), Cost::Sched) };
+        let c = if phase < 2 { 0 } else { crate::explore::choose_n(en.len(), Cost::Sched) };
         let step = en[c].clone();
         if render {
             log.push(w.sim.describe(&step));
         }
-        if phase == 1 && matches!(&step, Step::Poll(i) if Some(*i) == w.task_idx[0]) {
+        if phase == 2 && matches!(&step, Step::Poll(i) if Some(*i) == w.task_idx[0]) {
             task_polls_after_fault += 1;
         }
         w.sim.apply(&step);
         // the raw peer acknowledges every Connect
         for m in raw.pump() {
             if let RMsg::Frame(RFrame::Connect { id, .. }) = m {
-                if phase == 0 {
+                if phase < 2 {
                     raw.send(&RFrame::Acknowledge { id, n: 4 });
                 }
             }
@@ -489,6 +505,16 @@ async fn late_ops_async(n: usize, how: u8, render: bool) -> RunOutput {
     }
     if !w.task_done(0) {
         push_viol(&mut viol, "hang.task", "the connection task never finished".into());
+    }
+    // the stream that was established and queued for accept before the end is still handed out, with its data
+    {
+        let accepted = obs.events.iter().any(|e| matches!(e, Ev::Accepted { tag, .. } if *tag == QUEUED_TAG));
+        let d = obs.dirs.get(&(QUEUED_TAG, 0)).cloned().unwrap_or_default();
+        if !accepted {
+            push_viol(&mut viol, "late.queued-stream-lost", format!("a stream the peer had opened (acknowledged, data delivered) was waiting in the accept queue when the connection ended ({}); accept_stream_channel called afterwards did not hand it out", HOWS[usize::from(how.min(3))]));
+        } else if d.read != d.written || !d.eof {
+            push_viol(&mut viol, "late.queued-stream-data", format!("the stream handed out of the accept queue after the connection ended read {:02x?} (eof={}), the peer had written {:02x?}", d.read, d.eof, d.written));
+        }
     }
     for e in &obs.events {
         match e {
